@@ -9,6 +9,7 @@ pub mod c06;
 pub mod c08;
 pub mod c09;
 pub mod c10;
+pub mod c13;
 pub mod c14;
 pub mod c15;
 pub mod c17;
@@ -27,6 +28,7 @@ pub fn lookup(id: &str) -> Option<PropFn> {
         "C08" => c08::run,
         "C09" => c09::run,
         "C10" => c10::run,
+        "C13" => c13::run,
         "C14" => c14::run,
         "C15" => c15::run,
         "C17" => c17::run,
